@@ -503,6 +503,408 @@ def fingerprint(s) -> str:
     return h.hexdigest()
 
 
+
+# ---------------------------------------------------------- trace validation
+SPECIAL_MODS = {'__derived__': 0, '__ext_casts__': 1, '__ext_index_matches__': 2}
+TRACED = ('add_raw', 'update_obj', 'set_obj_field', 'unset_obj_field', '_delete', 'delist')
+
+
+class Untranslatable(Exception):
+    pass
+
+
+class Tracer:
+    """logs the primitive FlatSchema operations the engine performs"""
+
+    def __init__(self):
+        from edb.schema import schema as s_schema
+        self.cls = s_schema.FlatSchema
+        self.log = []
+        self.orig = {}
+
+    def __enter__(self):
+        log = self.log
+        for name in TRACED:
+            orig = getattr(self.cls, name)
+            self.orig[name] = orig
+
+            def make(name, orig):
+                def wrapped(self_, *a, **k):
+                    try:
+                        r = orig(self_, *a, **k)
+                    except BaseException as e:      # noqa: BLE001
+                        log.append((self_, name, a, k, None, e))
+                        raise
+                    log.append((self_, name, a, k, r, None))
+                    return r
+                wrapped.__name__ = orig.__name__
+                wrapped.__qualname__ = orig.__qualname__
+                return wrapped
+            setattr(self.cls, name, make(name, orig))
+        return self
+
+    def __exit__(self, *exc):
+        for name, orig in self.orig.items():
+            setattr(self.cls, name, orig)
+        return False
+
+
+class Translator:
+    """real values -> protocol tokens (per model session: uuids, module and local
+    names, atoms are interned in first-occurrence order)"""
+
+    def __init__(self, reg):
+        self.reg = reg
+        self.ids, self.mods, self.locals_, self.atoms = {}, dict(SPECIAL_MODS), {}, {}
+
+    def nat(self, u):
+        return self.ids.setdefault(u, len(self.ids))
+
+    def mod(self, m: str):
+        if m not in self.mods:
+            self.mods[m] = len(self.mods) + 3 - len(SPECIAL_MODS)
+        return self.mods[m]
+
+    def loc(self, n: str):
+        return self.locals_.setdefault(n, len(self.locals_))
+
+    def name(self, cls, name):
+        sn = self.reg.sn
+        if isinstance(name, sn.UnqualName):
+            return f'U{self.mod(name.name)}'
+        if not isinstance(name, sn.QualName):
+            raise Untranslatable(f'name {name!r}')
+        if self.reg.desc(cls)['sn'] and '@' in name.name:
+            short = sn.shortname_from_fullname(name)
+            if not isinstance(short, sn.QualName):
+                raise Untranslatable(f'unqualified short name of {name!r}')
+            return f'S{self.mod(name.module)}.{self.mod(short.module)}.{self.loc(short.name)}.{self.loc(name.name)}'
+        return f'Q{self.mod(name.module)}.{self.loc(name.name)}'
+
+    def slot(self, cls, f, v):
+        """a stored (reduced) slot value"""
+        d = self.reg.desc(cls)
+        if v is None:
+            return 'N'
+        if f == d['name']:
+            if isinstance(v, (self.reg.sn.QualName, self.reg.sn.UnqualName)):
+                return 'n' + self.name(cls, v)
+            raise Untranslatable(f'name slot holds {v!r}')
+        kind = d['kinds'].get(f)
+        if kind == 'single':
+            return f'r{self.nat(v[1])}'
+        if kind == 'coll':
+            ids = [self.nat(x) for x in v[2]]
+            if isinstance(v[2], frozenset) or v[0] == 'ObjectSet':
+                ids = sorted(set(ids))
+            return 'l' + (','.join(map(str, ids)) or '-')
+        if kind == 'expr':
+            ids = sorted({self.nat(x) for x in v[1][2]})
+            return 'l' + (','.join(map(str, ids)) or '-')
+        return f'a{self.atoms.setdefault(repr(v), len(self.atoms))}'
+
+    def data(self, cls, data):
+        return [(f, self.slot(cls, f, v)) for f, v in enumerate(data) if v is not None]
+
+
+class ClassRegistry:
+    def __init__(self):
+        from edb.schema import objects as so, name as sn, functions, operators, modules
+        from edb.schema import expr as s_expr
+        self.so, self.sn, self.s_expr = so, sn, s_expr
+        self.sn_classes = (functions.Function, operators.Operator)
+        self.module_cls = modules.Module
+        self.tags = {modules.Module: 1}
+        self.descs = {}
+
+    def tag(self, cls):
+        if cls not in self.tags:
+            self.tags[cls] = len(self.tags) + 1
+        return self.tags[cls]
+
+    def desc(self, cls):
+        d = self.descs.get(cls)
+        if d is None:
+            so = self.so
+            fs = cls.get_schema_fields()
+            kinds = {}
+            for f in cls.get_object_reference_fields():
+                if issubclass(f.type, so.Object):
+                    kinds[f.index] = 'single'
+                elif issubclass(f.type, so.ObjectCollection):
+                    kinds[f.index] = 'coll'
+                elif issubclass(f.type, self.s_expr.Expression):
+                    kinds[f.index] = 'expr'
+                else:
+                    raise core.Infra(f'shape: unknown object container {f.type!r}')
+            d = self.descs[cls] = {
+                'global': not issubclass(cls, so.QualifiedObject), 'sn': issubclass(cls, self.sn_classes),
+                'nfields': len(fs), 'name': fs['name'].index, 'kinds': kinds,
+                'own': sorted(fs[rd.attr].index for rd in cls.get_refdicts()),
+                'findex': {f.name: f.index for f in fs.values()},
+                'fname': {f.index: f.name for f in fs.values()},
+                'reducible': {f.index for f in cls.get_reducible_fields()},
+            }
+        return d
+
+    def line(self, cls):
+        d = self.desc(cls)
+        nl = lambda l: ','.join(map(str, l)) if l else '-'
+        single = sorted(f for f, k in d['kinds'].items() if k == 'single')
+        coll = sorted(f for f, k in d['kinds'].items() if k != 'single')
+        return (f"cls {self.tag(cls)} {int(d['global'])} {int(d['sn'])} {d['nfields']} {d['name']} "
+                f"{nl(single)} {nl(coll)} {nl(d['own'])}")
+
+
+def err_class(e, errors) -> str:
+    name = type(e).__name__
+    if not isinstance(e, errors.SchemaError) or name in ('UnknownModuleError', 'InvalidReferenceError'):
+        tb = e.__traceback__
+        while tb is not None:
+            fn = tb.tb_frame.f_code.co_name
+            if fn.startswith('get_verbosename') or fn.startswith('get_displayname'):
+                return 'SchemaError'
+            tb = tb.tb_next
+    return name
+
+
+def guard_check(entry, st):
+    """rawOK of Model/StoreSpec.lean evaluated on the real call"""
+    self_, name, a, _k, _r, _e = entry
+    if name == 'update_obj':
+        obj, updates = a
+        if not updates:
+            return
+        st['guard_checked'] += 1
+        if obj.id not in self_._id_to_type:
+            st['guard_violations']['update_obj on an object that is not in the schema'] = \
+                st['guard_violations'].get('update_obj on an object that is not in the schema', 0) + 1
+            return f'update_obj({type(obj).__name__} {obj.id}) on an object that is not in the schema'
+        if self_._id_to_type[obj.id] != type(obj).__name__:
+            st['guard_violations']['update_obj through a handle of another class'] = \
+                st['guard_violations'].get('update_obj through a handle of another class', 0) + 1
+            return f'update_obj through a {type(obj).__name__} handle on a {self_._id_to_type[obj.id]}'
+    elif name == '_delete':
+        obj = a[0]
+        st['guard_checked'] += 1
+        t = self_._id_to_type.get(obj.id)
+        if t is not None and t != type(obj).__name__:
+            st['guard_violations']['delete through a handle of another class'] = \
+                st['guard_violations'].get('delete through a handle of another class', 0) + 1
+            return f'delete through a {type(obj).__name__} handle on a {t}'
+    elif name == 'delist':
+        st['delists'] += 1
+    else:
+        st['guard_checked'] += 1
+    return None
+
+
+def build_session(reg: ClassRegistry, base, log, errors):
+    """Lean driver lines replaying the logged operations of ONE statement from the
+    schema `base` it was applied to, and the expected answers computed from the REAL
+    result schemas.  Returns (lines, expected, n_skipped)."""
+    so = reg.so
+    tr = Translator(reg)
+    ver = {id(base): 0}
+    keep = [base]
+
+    def cls_of(s, i, default=None):
+        cn = s._id_to_type.get(i)
+        return so.ObjectMeta.get_schema_class(cn) if cn is not None else default
+
+    # ---- which objects of the base must be known to the model
+    need = []
+    seen = set()
+
+    def want(i):
+        if i not in seen and i in base._id_to_data and i in base._id_to_type:
+            seen.add(i)
+            need.append(i)
+
+    for (_c, _n), i in base._globalname_to_id.items():
+        if _c is reg.module_cls:
+            want(i)
+    for (self_, name, a, _k, _r, _e) in log:
+        if name == 'add_raw':
+            i, cls, data = a
+            want(i)
+            nm = data[reg.desc(cls)['name']] if len(data) > reg.desc(cls)['name'] else None
+        elif name == 'delist':
+            nm = a[0]
+            i = self_._name_to_id.get(nm)
+            if i is not None:
+                want(i)
+            continue
+        else:
+            obj = a[0]
+            i = obj.id
+            want(i)
+            cls = type(obj)
+            nm = None
+            if name == 'update_obj':
+                nm = a[1].get('name')
+            elif name == 'set_obj_field' and a[1] == 'name':
+                nm = a[2]
+        if nm is not None:
+            # a name the operation is about to claim: the model must know who holds it
+            other = self_._name_to_id.get(nm)
+            if other is None:
+                other = self_._globalname_to_id.get((cls, nm))
+            if other is not None:
+                want(other)
+    lines, expected = [], []
+    imports = []
+    for i in need:
+        cls = cls_of(base, i)
+        kvs = tr.data(cls, base._id_to_data[i])
+        imports.append(f"add {tr.nat(i)} {reg.tag(cls)} " + ' '.join(f'{f}={v}' for f, v in kvs))
+
+    def record(s, i, cls, old_s):
+        """the touched object's record in the real schema `s` (same layout as Driver.record)"""
+        data = s._id_to_data.get(i)
+        tcls = cls_of(s, i)
+        D = '-' if data is None else ';'.join(
+            [str(len(data))] + [f'{f}:{v}' for f, v in tr.data(tcls or cls, data)])
+        T = '-' if tcls is None else str(reg.tag(tcls))
+        # names that may lead to i: its name before and after
+        cands = set()
+        for sv in (old_s, s):
+            dv = sv._id_to_data.get(i)
+            if dv is not None:
+                c2 = cls_of(sv, i, cls)
+                ni = reg.desc(c2)['name']
+                if len(dv) > ni and dv[ni] is not None:
+                    cands.add((c2, dv[ni]))
+        N, G, S = set(), set(), set()
+        for c2, nm in cands:
+            if s._name_to_id.get(nm) == i:
+                N.add(tr.name(c2, nm))
+            for c3 in {c2, cls}:
+                if s._globalname_to_id.get((c3, nm)) == i:
+                    G.add(f'{reg.tag(c3)}/{tr.name(c3, nm)}')
+                short = reg.sn.shortname_from_fullname(nm)
+                if reg.desc(c3)['sn'] and isinstance(short, reg.sn.QualName) \
+                        and i in s._shortname_to_id.get((c3, short), ()):
+                    S.add(f'{reg.tag(c3)}/Q{tr.mod(short.module)}.{tr.loc(short.name)}')
+        # outgoing reverse references: every target named by the old or new data
+        tg = set()
+        for sv in (old_s, s):
+            dv = sv._id_to_data.get(i)
+            if dv is not None:
+                c2 = cls_of(sv, i, cls)
+                for f in c2.get_object_reference_fields():
+                    if len(dv) > f.index and dv[f.index] is not None:
+                        tg |= set(f.type.schema_refs_from_data(dv[f.index]))
+        R = set()
+        for t in tg:
+            for (c3, fn), srcs in s._refs_to.get(t, {}).items():
+                if i in srcs:
+                    R.add(f"{tr.nat(t)}<{reg.tag(c3)}.{reg.desc(c3)['findex'].get(fn, '?' + fn)}")
+        return '|'.join([D, T, ' '.join(sorted(N)), ' '.join(sorted(G)), ' '.join(sorted(S)), ' '.join(sorted(R))])
+
+    skipped = 0
+    for (self_, name, a, _k, r, e) in log:
+        vin = ver.get(id(self_))
+        if vin is None:
+            skipped += 1
+            continue
+        if r is not None and id(r) not in ver:
+            ver[id(r)] = len(ver)
+            keep.append(r)
+        vout = ver[id(r)] if r is not None else vin
+        status = 'ok' if e is None else 'err ' + err_class(e, errors)
+        if name == 'add_raw':
+            i, cls, data = a
+            kvs = tr.data(cls, data)
+            op = f"add {tr.nat(i)} {reg.tag(cls)} " + (f'len={len(data)} ' if len(data) != reg.desc(cls)['nfields'] else '') \
+                + ' '.join(f'{f}={v}' for f, v in kvs)
+        elif name == 'update_obj':
+            obj, updates = a
+            cls, i = type(obj), obj.id
+            d = reg.desc(cls)
+            kvs = []
+            for fn, v in updates.items():
+                f = d['findex'][fn]
+                if v is not None and f in d['reducible']:
+                    v = v.schema_reduce()
+                kvs.append((f, tr.slot(cls, f, v)))
+            op = f"upd {tr.nat(i)} {reg.tag(cls)} " + ' '.join(f'{f}={v}' for f, v in kvs)
+        elif name == 'set_obj_field':
+            obj, fn, v = a
+            i = obj.id
+            cls = cls_of(self_, i, type(obj))
+            d = reg.desc(cls)
+            f = d['findex'][fn]
+            if v is not None and f in d['reducible']:
+                v = v.schema_reduce()
+            op = f"set {tr.nat(i)} {f} {tr.slot(cls, f, v)}"
+        elif name == 'unset_obj_field':
+            obj, fn = a
+            i = obj.id
+            cls = cls_of(self_, i, type(obj))
+            op = f"unset {tr.nat(i)} {reg.desc(cls)['findex'][fn]}"
+        elif name == '_delete':
+            obj = a[0]
+            i, cls = obj.id, type(obj)
+            op = f"del {tr.nat(i)} {reg.tag(cls)}"
+        else:
+            nm = a[0]
+            i, cls = None, None
+            op = f"delist {tr.name(so.QualifiedObject, nm)}"
+        lines.append(f'v {vin} {vout} {op}'.rstrip())
+        if status == 'ok' and i is not None:
+            expected.append((status, record(r, i, cls, self_)))
+        else:
+            expected.append((status, ''))
+    header = (['reset', 'quiet'] + [reg.line(c) for c in sorted(reg.tags, key=lambda c: reg.tags[c])]
+              + imports + ['v0'])
+    return header, lines, expected, skipped, keep
+
+
+def replay_sessions(ctx, sessions, st):
+    """pipe the logged operations through the Lean model and compare"""
+    if not sessions:
+        return
+    all_lines = []
+    for (_key, _detail, _ddl, header, lines, _exp, _keep) in sessions:
+        all_lines += header + lines
+    model = ctx.driver('C04', all_lines)
+    if len(model) != len(all_lines):
+        raise core.Infra(f'driver returned {len(model)} lines for {len(all_lines)}')
+    pos = 0
+    for (key, detail, ddl, header, lines, expected, _keep) in sessions:
+        hm = model[pos:pos + len(header)]
+        bm = model[pos + len(header):pos + len(header) + len(lines)]
+        pos += len(header) + len(lines)
+        for hl, ml in zip(header, hm):
+            if ml != 'ok' and not ml.startswith('ok|'):
+                if st['trace_disagreements'] < 20:
+                    ctx.fail(f'l2-trace-import:{key}', 'level 2: the model rejects an object of the REAL base schema '
+                             f'({ml.split("|")[0]}) — the real schema holds something the model says cannot be added',
+                             detail | {'line': hl, 'model': ml.split('|')[0], 'stream': 'trace validation'},
+                             no_input=True)
+                st['trace_disagreements'] += 1
+                break
+        else:
+            for k, (line, (status, rec), ml) in enumerate(zip(lines, expected, bm)):
+                st['raw_ops_replayed'] += 1
+                if ml in ('bad-op', 'bad-version'):
+                    raise core.Infra(f'driver rejected trace line {line!r}: {ml}')
+                mstat, _, mrec = ml.partition('|')
+                mwords = mstat.split()
+                mstatus, mguard = ' '.join(mwords[:-1]), mwords[-1]
+                canon = lambda r: '|'.join(' '.join(sorted(x.split())) for x in r.split('|'))
+                if mstatus != status or (status == 'ok' and rec and canon(mrec) != canon(rec)):
+                    st['trace_disagreements'] += 1
+                    if st['trace_disagreements'] <= 20:
+                        ctx.fail(f'l2-trace:{key}:{k}', 'level 2: the model replaying the engine\'s raw operations '
+                                 'disagrees with the real FlatSchema',
+                                 detail | {'ddl': ddl, 'op': line, 'real': status + '|' + rec, 'model': ml,
+                                           'stream': 'trace validation: logged FlatSchema operations vs EdbVerif.Store'},
+                                 no_input=True)
+                    break
+
+
 # ----------------------------------------------------------------------- run
 def run_level2(ctx: core.Ctx):
     from bridge import env
@@ -514,6 +916,8 @@ def run_level2(ctx: core.Ctx):
     from edb import errors
 
     aud = Auditor()
+    reg = ClassRegistry()
+    sessions = []          # (key, detail, header, lines, expected)
     bases = []
     for k, sdl in enumerate(BASES):
         sch = env.load_schema(sdl)
@@ -527,11 +931,13 @@ def run_level2(ctx: core.Ctx):
     ctx.log(f'level 2: {len(bases)} base schemas ({len(bases[0][0]._id_to_data)} objects each) pass the full audit')
 
     rng = ctx.rng
-    n_scripts = ctx.budget(24, 500)
-    n_stmts = ctx.budget(16, 24)
+    n_scripts = ctx.budget(24, 150)
+    n_stmts = ctx.budget(16, 20)
     st = {'statements': 0, 'accepted': 0, 'rejected': 0, 'kinds': {}, 'rejected_kinds': {}, 'errors': {},
           'objects_touched': 0, 'objects_removed': 0, 'full_audits': len(bases), 'versions': 0, 'scripts': 0,
-          'crashes': {}}
+          'crashes': {}, 'raw_ops_logged': 0, 'raw_ops_replayed': 0, 'raw_ops_unknown_version': 0,
+          'raw_op_kinds': {}, 'guard_checked': 0, 'guard_violations': {}, 'delists': 0,
+          'statements_untranslatable': 0, 'trace_disagreements': 0}
     scripts = []
     if ctx.replay:
         import json
@@ -561,8 +967,32 @@ def run_level2(ctx: core.Ctx):
             detail = {'base': base, 'script': list(done), 'at': k}
             st['statements'] += 1
             st['kinds'][kind] = st['kinds'].get(kind, 0) + 1
+            tracer = Tracer()
+            outcome = None
             try:
-                s2 = env.run_ddl(sch, ddl)
+                with tracer:
+                    s2 = env.run_ddl(sch, ddl)
+            except BaseException as e:      # noqa: BLE001
+                outcome = e
+            # ---- trace validation of what the engine did to the FlatSchema values
+            st['raw_ops_logged'] += len(tracer.log)
+            for entry in tracer.log:
+                st['raw_op_kinds'][entry[1]] = st['raw_op_kinds'].get(entry[1], 0) + 1
+                gv = guard_check(entry, st)
+                if gv is not None and len(st['guard_violations']) <= 3:
+                    ctx.fail(f'l2-guard:{gv[:60]}', f'level 2: the schema engine issues a raw operation outside the '
+                             f'guard of store_inv: {gv} (while applying {ddl!r})', detail, no_input=True)
+            if tracer.log:
+                try:
+                    header, lines, expected, skipped, keep = build_session(reg, sch, tracer.log, errors)
+                    st['raw_ops_unknown_version'] += skipped
+                    sessions.append((key, detail, ddl, header, lines, expected, keep))
+                except Untranslatable:
+                    st['statements_untranslatable'] += 1
+            tracer.log = []
+            try:
+                if outcome is not None:
+                    raise outcome
             except errors.EdgeDBError as e:
                 st['rejected'] += 1
                 st['rejected_kinds'][kind] = st['rejected_kinds'].get(kind, 0) + 1
@@ -607,10 +1037,18 @@ def run_level2(ctx: core.Ctx):
                          f'obtained', {'base': base, 'script': list(done)})
         st['versions'] += len(versions)
         st['scripts'] += 1
+        if len(sessions) >= 200:
+            replay_sessions(ctx, sessions, st)
+            sessions = []
+    replay_sessions(ctx, sessions, st)
     for k, (sch, _inv, deep, _fp) in enumerate(bases):
         if fingerprint(sch) != deep:
             ctx.fail(f'l2-frozen-base:{k}', f'level 2: base schema #{k} changed (content of the six indexes) while '
                      f'{st["scripts"]} scripts were applied to it', {'base': k})
+    ctx.log(f"level 2 trace validation: {st['raw_ops_logged']} raw FlatSchema operations logged "
+            f"({st['raw_op_kinds']}), {st['raw_ops_replayed']} replayed through the model, "
+            f"{st['trace_disagreements']} disagreements, guard checked on {st['guard_checked']} "
+            f"(violations {st['guard_violations']}), {st['delists']} delist calls")
     ctx.log(f"level 2: {st['scripts']} DDL scripts, {st['statements']} statements ({st['accepted']} accepted, "
             f"{st['rejected']} rejected {st['errors']}), {st['objects_touched']} object records audited, "
             f"{st['objects_removed']} drops, {st['versions']} versions re-fingerprinted, {time.time() - t0:.0f}s")
